@@ -45,6 +45,8 @@ def run_cases(ctx, n, rational_share=0.7, with_sources=True):
     for _ in range(n):
         rational = rng.random() < rational_share
         steps, corr = CL.gen_program(rng, rational_only=rational)
+        while CL.has_scale_factor(steps):
+            steps, corr = CL.gen_program(rng, rational_only=rational)
         try:
             w = CL.execute(steps, corr, corr_after=rng.random() < 0.3)
             observations = [w.observe(k, with_sources) for k in w.derived_ids()]
